@@ -12,7 +12,7 @@ import (
 )
 
 func init() {
-	register("C15", "Decides structural conditions of 'untrusted input never crashes or hangs the server': (1) pointer fields of the third-party GraphQL AST that its parser can leave nil (computed from the parser package's own composite literals on every run) are nil-tested on the same access path before package graphql dereferences them, or handed to a callee that tests its parameter first; (2) valueToJson and Parse's definition switch are total with an error default; (3) every single-value type assertion in package graphql and in the argument parsers (schemabuilder/input.go) is either comma-ok/type-switch or one of the justified forms (a struct field all of whose stores have that static type; or dominated by a successful comma-ok assertion of the same operand to the same type), others only on the reasoned allow-list; (4) every recursive walk over fragments (call-graph cycles through SelectionSet.Fragments in graphql and federation) has a visited-set guard keyed by the recursion argument, so repeated spreads cannot multiply work; (5) SafeExecuteResolver/SafeExecuteBatchResolver defer a recover that assigns the error, and Field.Resolve/BatchResolver are invoked only through them (or from inside another resolver closure); (6) every blocking wait on a signal that only a rerunner compute function gives is a select with a ctx.Done() arm, and Rerunner.run returns on a cancelled context before taking r.mu (shared with C04); (7) the websocket envelope handlers return errors for malformed JSON and unknown types. graphql.Flatten and federation.mergeSameAlias agree on rejecting same-alias selections that differ in field name, arguments or in having sub-selections. Not decided: absence of all runtime panics (reflection, user code), the polynomial bound itself, goroutine leaks.", c15)
+	register("C15", "Decides structural conditions of 'untrusted input never crashes or hangs the server': (1) pointer fields of the third-party GraphQL AST that its parser can leave nil (computed from the parser package's own composite literals on every run) are nil-tested on the same access path before package graphql dereferences them, or handed to a callee that tests its parameter first; (2) valueToJson and Parse's definition switch are total with an error default; (3) every single-value type assertion in package graphql and in the argument parsers (schemabuilder/input.go) is either comma-ok/type-switch or one of the justified forms (a struct field all of whose stores have that static type; or dominated by a successful comma-ok assertion of the same operand to the same type), others only on the reasoned allow-list; (4) every recursive walk over fragments (call-graph cycles through SelectionSet.Fragments in graphql and federation) has a visited-set guard keyed by the recursion argument, so repeated spreads cannot multiply work; (5) SafeExecuteResolver/SafeExecuteBatchResolver defer a recover that assigns the error, and Field.Resolve/BatchResolver are invoked only through them (or from inside another resolver closure); (6) every blocking wait on a signal that only a rerunner compute function gives is a select with a ctx.Done() arm, and Rerunner.run returns on a cancelled context before taking r.mu (shared with C04); (7) the websocket envelope handlers return errors for malformed JSON and unknown types. graphql.Flatten and federation.mergeSameAlias agree on rejecting same-alias selections that differ in field name, arguments or in having sub-selections; Parse never writes into the variables map it was given (a nil map from an envelope without variables would panic). Not decided: absence of all runtime panics (reflection, user code), the polynomial bound itself, goroutine leaks.", c15)
 }
 
 // nilableASTFields computes, from the graphql-go parser package, the pointer
@@ -194,6 +194,9 @@ func c15(c *an.Ctx) {
 		}
 	})
 
+	c.Check("R-FRESH", "Parse never writes into the variables map it was given (an envelope without variables gives a nil map; writing a default into it panics in every entry point) - rule shared with C18", 4, func(o *an.O) {
+		ruleParseDefaults(c, o, "write")
+	})
 	c.Check("R-EXH", "valueToJson and Parse's definition switch are total with an error default", 2, func(o *an.O) {
 		for _, nm := range []string{"valueToJson", "Parse"} {
 			fd, pp := p.FuncDecl(gq, nm)
